@@ -1652,6 +1652,16 @@ class CodedKern(Kern):
             new_suffix += f"_{name_idx}"
             new_name = old_base_name + new_suffix + "_mod.f90"
 
+            if config.kernel_naming == "single":
+                # We only ever create one copy of a transformed kernel and
+                # other (parallel) runs may read it at any time. Therefore
+                # it is written to a private file which is only given its
+                # real name (atomically, below) once it is complete.
+                new_path = os.path.join(config.kernel_output_dir, new_name)
+                tmp_path = f"{new_path}.{os.getpid()}.tmp"
+                fdesc = os.open(tmp_path,
+                                os.O_CREAT | os.O_WRONLY | os.O_TRUNC)
+                break
             try:
                 # Atomically attempt to open the new kernel file (in case
                 # this is part of a parallel build)
@@ -1661,10 +1671,6 @@ class CodedKern(Kern):
             except (OSError, IOError):
                 # The os.O_CREATE and os.O_EXCL flags in combination mean
                 # that open() raises an error if the file exists
-                if config.kernel_naming == "single":
-                    # If the kernel-renaming scheme is such that we only ever
-                    # create one copy of a transformed kernel then we're done
-                    break
                 continue
 
         # Use the suffix we have determined to rename all relevant quantities
@@ -1686,6 +1692,19 @@ class CodedKern(Kern):
         new_kern_code = fortran_writer(self.get_kernel_schedule().root)
         fll = FortLineLength()
         new_kern_code = fll.process(new_kern_code)
+
+        if config.kernel_naming == "single":
+            os.write(fdesc, new_kern_code.encode())
+            os.close(fdesc)
+            fdesc = None
+            try:
+                # Atomic and fails if the file already exists.
+                os.link(tmp_path, new_path)
+                return
+            except FileExistsError:
+                pass
+            finally:
+                os.remove(tmp_path)
 
         if not fdesc:
             # If we've not got a file descriptor at this point then that's
